@@ -6,8 +6,12 @@ import shutil
 def r1(ctx, thorough):
     """TLC on the protocol model: deadlock freedom, no send/close on closed channel, PostIteration once,
     close order, callbacks counted once, overshoot bound, status justified, termination (liveness)."""
+    # Kinds: evaluation kinds the method may ask for (bit 0 Func, bit 1 Grad, bit 2 Hess; 0 = an evaluation whose
+    # callbacks the configuration does not track).  MaxRuns = 2: a second run made with the same Method value (ReInit).
     cfgs = [
-        ("NT=1 all causes", dict(NT=1, MAXSENDS=5, FLIMIT=2, ILIMIT=2, CAUSES='{"converge","recerr","mdone","probstatus"}', PROPS="PROPERTIES Termination")),
+        ("NT=1 all causes, F/G/H limits, two runs on one Method value",
+         dict(NT=1, MAXSENDS=5, FLIMIT=2, GLIMIT=2, HLIMIT=1, ILIMIT=2, CAUSES='{"converge","recerr","mdone","probstatus"}',
+              KINDS="{1, 2, 3, 4, 7}", MAXRUNS=2, PROPS="PROPERTIES Termination ReInitIsInit")),
         ("NT=2 eval limit, converger, recorder error", dict(NT=2, MAXSENDS=5, FLIMIT=2, ILIMIT=0, CAUSES='{"converge","recerr"}', PROPS="PROPERTIES Termination")),
         ("NT=2 iteration limit, MethodDone, Problem.Status", dict(NT=2, MAXSENDS=5, FLIMIT=0, ILIMIT=1, CAUSES='{"mdone","probstatus"}', PROPS="PROPERTIES Termination")),
     ]
@@ -15,8 +19,12 @@ def r1(ctx, thorough):
         cfgs += [
             ("NT=2 all causes, 6 sends", dict(NT=2, MAXSENDS=6, FLIMIT=3, ILIMIT=2, CAUSES='{"converge","recerr","mdone","probstatus"}', PROPS="PROPERTIES Termination")),
             ("NT=3 eval limit (safety)", dict(NT=3, MAXSENDS=6, FLIMIT=2, ILIMIT=0, CAUSES='{"converge"}', PROPS="")),
+            ("NT=2 gradient / Hessian limits (slack NT-1 of each counter)",
+             dict(NT=2, MAXSENDS=5, FLIMIT=0, GLIMIT=2, HLIMIT=1, ILIMIT=0, CAUSES='{"recerr"}', KINDS="{1, 3, 4}", MAXRUNS=1,
+                  PROPS="PROPERTIES Termination")),
         ]
     for name, sub in cfgs:
+        sub = dict(dict(GLIMIT=0, HLIMIT=0, KINDS="{0, 1}", MAXRUNS=1), **sub)
         ctx.tlc("optimize/Minimize.tla", "optimize/Minimize_model.cfg", subst=sub, name="R1 Minimize protocol " + name,
                 coverage=(name.startswith("NT=2 eval")), timeout=2400)
 
@@ -43,6 +51,38 @@ def r3(ctx, thorough, binary, label, prop, nts=(1, 2, 3, 4)):
             ctx.violation("minimize:trace-rejected:nt%d:%s" % (nt, label), st.get("detail", "")[:900],
                           {"trace": dst, "spec": "optimize/MinimizeTrace.tla", "cfg": dict(NT=nt)})
     ctx.parallel([lambda nt=nt: one(nt) for nt in nts], width=4)
+
+
+def r3_reuse(ctx, thorough, binary, prop):
+    """Histories that use ONE Method value for several Minimize calls (harness/internal/optim/reuse.go): the first run
+    stopped by every kind of budget at every small count, by a Recorder error or by a Converger, then the same value on
+    the same and on another problem.  Every run is recorded and validated like the single runs; a run with seq > 1 is
+    reached by the model's ReInit step."""
+    def one(nt, shard, nshards):
+        label = "reuse-nt%d-%d" % (nt, shard)
+        tr = os.path.join(ctx.work, "min-%s.ndjson" % label)
+        args = ["reuse", "nt=%d" % nt, "shard=%d/%d" % (shard, nshards)] + (["thorough"] if thorough else [])
+        summ = ctx.record(binary, "minimize", tr, args, name="R3 record minimize, reused Method values nt=%d shard %d/%d" % (nt, shard, nshards), timeout=1200)
+        if summ.get("traces", 0) == 0:
+            from vlib import Undecided
+            raise Undecided("no reuse history was recorded (nt=%d)" % nt)
+        ok, st = ctx.validate("optimize/MinimizeTrace.tla", "optimize/MinimizeTrace.cfg", tr, subst=dict(NT=nt),
+                              name="R3 validate minimize, reused Method values nt=%d shard %d/%d" % (nt, shard, nshards), dfs=True, timeout=1800)
+        if ok:
+            ctx.traces += summ.get("traces", 0)
+            ctx.cases += summ.get("traces", 0)
+            ctx.nontrivial += summ.get("extra", {}).get("runs made with a used Method value", 0)
+        else:
+            keep = os.path.join(os.path.dirname(ctx.work), "..", "replays", prop)
+            os.makedirs(keep, exist_ok=True)
+            dst = os.path.abspath(os.path.join(keep, "minimize-%s-seed%d.ndjson" % (label, ctx.seed)))
+            shutil.copy(tr, dst)
+            ctx.violation("minimize:trace-rejected:reuse:nt%d" % nt, st.get("detail", "")[:1500],
+                          {"trace": dst, "spec": "optimize/MinimizeTrace.tla", "cfg": dict(NT=nt)})
+    jobs = [(1, 0, 3), (1, 1, 3), (1, 2, 3), (2, 0, 1)]
+    if thorough:
+        jobs = [(1, i, 6) for i in range(6)] + [(2, i, 6) for i in range(6)]
+    ctx.parallel([lambda j=j: one(*j) for j in jobs], width=4)
 
 
 def replay_trace(ctx, d, prop):
